@@ -108,6 +108,10 @@ func (o *commitOracle) judge(w *World, nd *Node, h int64) {
 	if blk.Header.ChainID != ChainID {
 		bad("chainid", "chain id %q", blk.Header.ChainID)
 	}
+	// the previous-block id is part of what C02 states (hash and parts header: the id of the block this node committed at h-1)
+	if !blk.LastBlockID.Equals(prevID) {
+		bad("lastblockid", "names %v as predecessor but the node's block %d is %v", blk.LastBlockID, h-1, prevID)
+	}
 	if blk.Data == nil || blk.LastCommit == nil {
 		bad("nil-field", "nil Data or LastCommit")
 		return
